@@ -81,6 +81,9 @@ def cells(tier, seed):
                            "nres": nres}
         for case in UNSUPPORTED:
             yield {"kind": "unsup", "iface": iface, "case": case, "cat": k}
+        # E1 add-on: ONE sampler object re-targeted between posteriors of different structure (same dimension)
+        for n in ((4,) if quick else (3, 4, 6)):
+            yield {"kind": "retarget", "iface": iface, "n": n, "cat": k}
     for fam in DIRECT:
         yield {"kind": "direct", "fam": fam, "cat": k, "n": 3 if quick else 5}
 
@@ -115,6 +118,61 @@ def _run_conjugate(target, iface, extra=False):
                 outs.extend(list(smp._samples))
     others = [r for r in s.log if r["kind"] != "gamma"]
     return cap, outs, others
+
+
+def _eval_retarget(cell, res):
+    """sampler.target = other posterior on a USED sampler object: every later draw is from the new exact conditional."""
+    import cuqi
+    iface, n, k = cell["iface"], cell["n"], cell["cat"]
+    comp = IFACE_NAME[iface]
+    mean = refs.dyadic_vec(n, k + 1, scale=0.125)
+    data = refs.dyadic_vec(n, k, scale=0.25)
+    builders = [("gauss-cov", lambda: _gauss_target("cov=1/s", n, mean, data, 1.0, 1.0)),
+                ("gmrf-zero-1", lambda: _gmrf_target("zero", 1, 1, n, mean, data, 1.0, 1.0)),
+                ("gauss-prec", lambda: _gauss_target("prec=s", n, 0.5 * mean, 2.0 * data, 3.0, 2.0)),
+                ("gmrf-zero-2", lambda: _gmrf_target("zero", 2, 1, n, mean, data, 0.5, 1e-4))]
+    import itertools
+    for seq in itertools.permutations(range(len(builders)), 3):
+        cap = []
+        st = Stream(gamma=lambda rec, i: (cap.append(rec), DRAW)[1])
+        try:
+            targets = [builders[j][1]() for j in seq]
+            with st.installed():
+                if iface == "legacy":
+                    smp = cuqi.sampler.Conjugate(targets[0])
+                    smp.step(None)
+                    for t in targets[1:]:
+                        smp.target = t
+                        smp.step(None)
+                else:
+                    smp = cuqi.experimental.mcmc.Conjugate(targets[0])
+                    smp.step()
+                    for t in targets[1:]:
+                        smp.target = t
+                        smp.step()
+        except Exception as e:
+            res.refused += 1
+            res.outcomes.add("retarget-refused:%s" % type(e).__name__)
+            continue
+        res.transitions += 3
+        res.traces += 1
+        res.state(tuple(builders[j][0] for j in seq))
+        if len(cap) != 3:
+            res.fail("C10|%s|retarget|request-count" % comp, "%d Gamma requests for 3 draws" % len(cap))
+            continue
+        for pos, (j, rec) in enumerate(zip(seq, cap)):
+            tl = _target_logd(targets[pos], GRID)
+            res.evaluations += 1
+            ok, what, info = _judge(rec, tl, GRID, 1e-9)
+            if not ok:
+                res.fail("C10|%s|retarget|%s" % (comp, what), "after re-targeting one sampler object through %s the draw for %s is "
+                         "from Gamma(shape=%r, rate=%r), not proportional to that posterior (log-ratio varies by %s)" % (
+                             [builders[q][0] for q in seq[:pos + 1]], builders[j][0], info.get("shape"), info.get("rate"),
+                             np.round(info.get("diff", 0), 6)), focus={"sequence": [builders[q][0] for q in seq]})
+                break
+    res.outcomes.add("retarget:%s:%d" % (iface, n))
+    res.sample = {"retarget_sequences": 24, "n": n}
+    return res
 
 
 def _gamma_ref_logpdf(t, shape, scale):
@@ -546,4 +604,6 @@ def eval_cell(cell):
         return _eval_supported(cell, res)
     if cell["kind"] == "unsup":
         return _eval_unsupported(cell, res)
+    if cell["kind"] == "retarget":
+        return _eval_retarget(cell, res)
     return _eval_direct(cell, res)
